@@ -25,9 +25,9 @@ def plan(tier, seed):
     sh = []
     n = 8 if tier == "quick" else 32
     for p in range(n):
-        sh.append({"kind": "set", "part": p, "of": n, "stride": 16 if tier == "quick" else 1})
+        sh.append({"kind": "set", "part": p, "of": n, "stride": 4 if tier == "quick" else 1})
     for p in range(4):
-        sh.append({"kind": "query", "part": p, "of": 4, "values": 40 if tier == "quick" else 1200})
+        sh.append({"kind": "query", "part": p, "of": 4, "values": 120 if tier == "quick" else 1200})
     sh.append({"kind": "reject"})
     return sh
 
